@@ -3,6 +3,7 @@ import Verif.Proofs.LangVM
 import Verif.Proofs.LangVMErr
 import Verif.Proofs.LangVM4
 import Verif.Proofs.LangVM5
+import Verif.Proofs.LangCallDepth
 /-!
 # C34 — The bytecode VM is observationally equivalent to the interpreter; peephole optimisation
 does not change outcomes
@@ -259,6 +260,51 @@ theorem simulation_call_partial (p : Program) (tbl : Table) (hc : compile p = so
     (n : Nat) (v : Value) (s1 : State) (tr : List String) (h : run p n = ⟨.ok v, s1, tr⟩) :
     ∃ m, runVM tbl m = ⟨.ok v, ⟨[]⟩, tr⟩ :=
   sim_program p tbl (compile_tableOk p tbl hc hok) n v s1 tr h
+
+/-! ## Call-depth accounting (known finding `call-depth-counts-argument-nesting`)
+
+`Verif.Model.Lang.CallDepth` abstracts a run to the forest of its invocations and models how each
+engine counts depth against `runtime.Config.StackDepthLimit` (interpreter: every invocation expression,
+from before its arguments are evaluated, native callees included; VM: call frames of compiled functions,
+pushed after the arguments).  Full-strength statement (C34, "same error class"):
+`∀ limit main, vmFails limit main = interpFails limit main` — false, see `call_depth_witness`. -/
+section CallDepth
+open Verif.Model.Lang.CallDepth Verif.Proofs.LangCallDepth
+
+/-- **call_depth_witness**: the model exhibits the divergence.  For the run of `f(n)` with
+`fun f(_ n: Int): Int { if n == 0 { return 0 }; return id(f(n - 1)) }` and every limit with
+`n + 1 ≤ limit < 2 n + 1` the interpreter raises CallStackLimitExceededError and the VM does not
+(limit 10: n = 5 … 9; stream `vmeq`, corpus `known-call-depth-counts-argument-nesting.txt`). -/
+theorem call_depth_witness (n limit : Nat) (h1 : n + 1 ≤ limit) (h2 : limit < 2 * n + 1) :
+    interpFails limit [nested n] = true ∧ vmFails limit [nested n] = false := by
+  simp only [interpFails, vmFails, iDepthL, vDepthL, nested_i, nested_v, decide_eq_true_eq, decide_eq_false_iff_not]
+  omega
+
+example : interpFails 10 [nested 5] = true ∧ vmFails 10 [nested 5] = false := call_depth_witness 5 10 (by omega) (by omega)
+
+/-- **call_depth_interp_first**: in every run the interpreter's count dominates the VM's, so the
+divergence has one direction only: whenever the VM reaches the limit, the interpreter has reached it
+(no later). -/
+theorem call_depth_interp_first (limit : Nat) (main : List Call) (h : vmFails limit main = true) :
+    interpFails limit main = true := by
+  have := vL_le_iL main
+  simp only [interpFails, vmFails, decide_eq_true_eq] at *
+  omega
+
+/-- **call_depth_agree_partial**: outside the defect's region — runs in which no callee is native and
+no invocation happens inside an argument of another invocation — both engines reach the limit in
+exactly the same runs.  Missing for the full statement: runs with argument-nested or native
+invocations (there the statement is false, `call_depth_witness`). -/
+theorem call_depth_agree_partial (limit : Nat) (main : List Call) (h : plainL main = true) :
+    vmFails limit main = interpFails limit main := by
+  simp only [interpFails, vmFails, plainL_eq main h]
+
+-- non-vacuity: plain recursion `f(n - 1) + 1` nine deep is a plain run that stays below limit 10 in
+-- both engines, ten deep exceeds it in both
+example : plainL [chain 9] = true ∧ vmFails 10 [chain 9] = false ∧ interpFails 10 [chain 10] = true ∧
+    vmFails 10 [chain 10] = true := by decide
+
+end CallDepth
 
 open Verif.Model.Lang Verif.Model.Lang.VM in
 -- non-vacuity: `fun f(x: Int): Int { log(x); return x + 1 }`, `fun small(x: Int): Bool { return x < 2 }`,
